@@ -120,7 +120,9 @@ impl<F> Receiving<F> {
                 waker.wake();
                 *self = Self::Rcvd(frame);
             }
-            _ => (),
+            // a frame was already received or read, or the receiver was reset: the frame is ignored
+            // and the state (taken above) must be put back
+            other => *self = other,
         }
     }
 
